@@ -828,12 +828,22 @@ def tab_mathops(p, res):
         else:
             res.ok('ops2[%r] = %s' % (ch, src_of(lam)))
     lam = ops2.get('\\')
-    good = isinstance(lam, ast.Lambda) and len(lam.args.args) == 2 and src_of(lam.body) in (
-        'floor(%s / %s)' % (lam.args.args[0].arg, lam.args.args[1].arg), '%s // %s' % (lam.args.args[0].arg, lam.args.args[1].arg))
-    if not good:
-        res.bad(F('TAB-MATHOPS', mm, 'math_expression.ops2', lam or n2, 'ops2[%r] = %s' % ('\\', src_of(lam) if lam is not None else None), 'integer division must be floor(a / b)'))
+    if isinstance(lam, ast.Lambda) and len(lam.args.args) == 2:
+        x, y = lam.args.args[0].arg, lam.args.args[1].arg
+        body = src_of(lam.body)
+        if body in ('floor(%s / %s)' % (x, y), 'math.floor(%s / %s)' % (x, y), 'int(floor(%s / %s))' % (x, y), 'int(math.floor(%s / %s))' % (x, y)):
+            res.ok('ops2[\\\\] = ' + src_of(lam))
+        elif isinstance(lam.body, ast.BinOp) and isinstance(lam.body.op, ast.FloorDiv):
+            # float floor division is computed from the remainder of the binary operands, not by flooring the rounded quotient:
+            # 1 // 0.1 == 9.0 although 1 / 0.1 == 10.0
+            res.bad(F('TAB-MATHOPS', mm, 'math_expression.ops2', lam, 'ops2[%r] = %s' % ('\\', src_of(lam)),
+                      'integer division must be floor(a / b): for decimal operands `a // b` is one too small whenever the quotient is an integer the divisor cannot represent exactly (1\\0.1 gives 9.0, not 10)'))
+        elif body in ('floor(%s / %s)' % (y, x), 'int(%s / %s)' % (x, y), 'round(%s / %s)' % (x, y), 'ceil(%s / %s)' % (x, y), '%s / %s' % (x, y)):
+            res.bad(F('TAB-MATHOPS', mm, 'math_expression.ops2', lam, 'ops2[%r] = %s' % ('\\', src_of(lam)), 'integer division must be floor(a / b) (operand order, rounding towards minus infinity)'))
+        else:
+            res.undecided('ops2[%r] = %s' % ('\\', src_of(lam)), 'integer division is not spelled floor(a / b)')
     else:
-        res.ok('ops2[\\\\] = ' + src_of(lam))
+        res.undecided('ops2[%r]' % '\\', 'the evaluator of integer division is not a two-argument lambda')
     lam = ops1.get('-')
     good = isinstance(lam, ast.Lambda) and len(lam.args.args) == 1 and src_of(lam.body) == '-' + lam.args.args[0].arg
     if not good:
